@@ -11,7 +11,7 @@
 //	                both revoked tables vs the model
 //	-stage serial   RevokeRequest.Validate's serial canonicalisation vs the model
 //	-stage race     k simultaneous revocations of one serial (exactly one 200), revoke-vs-renew pairs
-//	-stage defects  D13 (SSH revocation under a non-canonical serial string) and its control
+//	-stage defects  D13 (SSH revocation under a non-canonical serial string; fixed by c1e180f) and its controls
 package main
 
 import (
@@ -28,6 +28,7 @@ import (
 type Case struct {
 	Hist   *Hist   `json:",omitempty"`
 	Serial *string `json:",omitempty"`
+	SSHSer *string `json:",omitempty"`
 	Race   *Race   `json:",omitempty"`
 	Defect *Defect `json:",omitempty"`
 }
@@ -54,6 +55,8 @@ func runCase(o *c.Out, k *Case) {
 			in, impl = runHist(k.Hist)
 		case k.Serial != nil:
 			in, impl = runSerial(*k.Serial)
+		case k.SSHSer != nil:
+			in, impl = runSSHSerial(*k.SSHSer)
 		case k.Race != nil:
 			in, impl, want = runRace(k.Race)
 		case k.Defect != nil:
@@ -120,12 +123,18 @@ func main() {
 		}
 	case "serial":
 		for _, s := range cornerSerials() {
-			s := s
+			s, s2 := s, s
 			runCase(o, &Case{Serial: &s})
+			runCase(o, &Case{SSHSer: &s2})
 		}
 		for i := 0; i < *n; i++ {
-			s := genSerial(r.Fork())
-			runCase(o, &Case{Serial: &s})
+			if i%3 == 2 {
+				s := genSSHSerial(r.Fork())
+				runCase(o, &Case{SSHSer: &s})
+			} else {
+				s := genSerial(r.Fork())
+				runCase(o, &Case{Serial: &s})
+			}
 		}
 	case "race":
 		for i := 0; i < *n; i++ {
@@ -133,7 +142,8 @@ func main() {
 			runCase(o, &Case{Race: &Race{K: 2 + rr.Intn(15), SSH: rr.Chance(1, 4), Renewers: rr.Intn(4), Spell: rr.Chance(1, 2)}})
 		}
 	case "defects":
-		for _, d := range []Defect{{Kind: "ssh-serial", Spelling: "0"}, {Kind: "ssh-serial", Spelling: ""}, {Kind: "ssh-serial-jwk", Spelling: "0"}, {Kind: "x509-serial", Spelling: "0x"}} {
+		for _, d := range []Defect{{Kind: "ssh-serial", Spelling: "0"}, {Kind: "ssh-serial", Spelling: ""}, {Kind: "ssh-serial-jwk", Spelling: "0"}, {Kind: "x509-serial", Spelling: "0x"},
+			{Kind: "ssh-serial", Spelling: "0x", Refused: true}, {Kind: "ssh-serial", Spelling: "+", Refused: true}, {Kind: "ssh-serial-jwk", Spelling: " ", Refused: true}} {
 			d := d
 			runCase(o, &Case{Defect: &d})
 		}
